@@ -1,6 +1,6 @@
 (* Executor ops for packet/io.go (C16), packet/packetwriter.go (C18), packet/accumulator.go (C17).
    The same op names run the real code in goexec/io.go. *)
-From Gots Require Import Base.Prelude Exec.ExecBase Model.IO Model.PacketWriter.
+From Gots Require Import Base.Prelude Exec.ExecBase Model.IO Model.PacketWriter Model.Accumulator.
 Open Scope string_scope.
 
 (* io.sync <data> <terminal error code> <bufio size> <underlying reader mode>
@@ -67,8 +67,59 @@ Definition readfrom_op (a : list val) : val :=
   | _ => vbad
   end.
 
+(* ---- C17 ----
+   predicate oracles: kind 0 done when len >= k; 1 never; 2 always; 3 fails (error 62) when len >= k;
+   4 (true, error 62) when len >= k (the error has priority); 5 done when the last byte equals k mod 256 *)
+Definition scripted_pred (kind k : Z) : Accumulator.pred :=
+  fun data =>
+    let big := (k <=? zlen data)%Z in
+    if (kind =? 0)%Z then (big, None)
+    else if (kind =? 1)%Z then (false, None)
+    else if (kind =? 2)%Z then (true, None)
+    else if (kind =? 3)%Z then (false, if big then Some 62 else None)
+    else if (kind =? 4)%Z then (big, if big then Some 62 else None)
+    else (match rev data with b :: _ => (Z.of_N b =? k mod 256)%Z | [] => false end, None).
+Fixpoint aops_of (l : list val) : option (list Accumulator.aop) :=
+  match l with
+  | [] => Some []
+  | v :: t =>
+    match aops_of t with
+    | None => None
+    | Some r =>
+      match v with
+      | VL [VI 0%Z; VB pkt] => Some (Accumulator.OWrite pkt :: r)
+      | VL [VI 1%Z] => Some (Accumulator.OReset :: r)
+      | VL [VI 2%Z] => Some (Accumulator.OBytes :: r)
+      | VL [VI 3%Z] => Some (Accumulator.OPackets :: r)
+      | _ => None
+      end
+    end
+  end.
+(* the trailing 1 of every result is the defensive-copy flag computed by goexec (always 1 in the model):
+   write: the caller's packet is not modified by the call; bytes / packets: the returned slice is
+   independent (scribbling over it does not change the next Bytes() / Packets()) *)
+Definition aout_val (o : Accumulator.aout) : val :=
+  match o with
+  | Accumulator.RWrite n e => VL [VI 0%Z; VI n; verr e; VI 1%Z]
+  | Accumulator.RReset => VL [VI 1%Z]
+  | Accumulator.RBytes b => VL [VI 2%Z; VB b; VI 1%Z]
+  | Accumulator.RPackets ps => VL [VI 3%Z; VL (map VB ps); VI 1%Z]
+  end.
+(* acc.run <pred kind> <k> <ops>   reply [0 [outs]] *)
+Definition acc_op (a : list val) : val :=
+  match a with
+  | [VI kind; VI k; VL l] =>
+    match aops_of l with
+    | Some os => vres (fun rs => VL (map aout_val rs))
+                      (Accumulator.run (scripted_pred kind k) Accumulator.new_acc os)
+    | None => vbad
+    end
+  | _ => vbad
+  end.
+
 Definition ops : list op := [
   ("io.sync", sync_op);
   ("pw.write", write_op);
-  ("pw.readfrom", readfrom_op)
+  ("pw.readfrom", readfrom_op);
+  ("acc.run", acc_op)
 ].
